@@ -160,6 +160,7 @@ type lifeRun struct {
 	scheduled bool
 	stormSeq  int
 	srv       *redis.Server
+	kept      []net.Conn // client sockets of connections the server has ended, kept open by their clients
 	double    *double
 	plain     int
 	tlsPort   int
@@ -576,7 +577,8 @@ func (lr *lifeRun) act(a string) string {
 		if cl := lr.clients[f[1]]; cl != nil {
 			r := roundTrip(cl.conn, reqS("QUIT"))
 			st := lr.clientAlive(cl)
-			cl.conn.Close()
+			// the client keeps its socket: what the server releases after QUIT does not depend on the client closing too
+			lr.kept = append(lr.kept, cl.conn)
 			delete(lr.clients, f[1])
 			return r + "/" + st
 		}
@@ -585,7 +587,7 @@ func (lr *lifeRun) act(a string) string {
 		if cl := lr.clients[f[1]]; cl != nil {
 			cl.conn.Write([]byte("?bogus\r\n"))
 			st := lr.clientAlive(cl)
-			cl.conn.Close()
+			lr.kept = append(lr.kept, cl.conn) // (the client keeps its socket, see quit)
 			delete(lr.clients, f[1])
 			return st
 		}
@@ -774,6 +776,9 @@ func (lr *lifeRun) tlsBad(kind string, f []string) string {
 }
 
 func (lr *lifeRun) shutdown() {
+	for _, c := range lr.kept {
+		c.Close()
+	}
 	if lr.scheduled {
 		defer redis.VerifSetSchedule(nil)
 	}
